@@ -277,3 +277,318 @@ def scenario_c11(scn):
     return {'id': scn['id'], 'prop': 'C11',
             'scn': {'faults': [{'req': f['req'], 'step': f['step'], 'mode': f['mode']} for f in done]},
             'obs': obs, 'notes': notes, 'faults_full': done}
+
+
+# ----------------------------------------------------------------------------- C18
+
+class _Capture:
+    def __init__(self):
+        self.data = b''
+
+    def sendall(self, d):
+        self.data += bytes(d)
+
+
+def _raw_delete(addr, cid):
+    """The delete request of RemoteContext._try_del for a context the client holds no live object of."""
+    import socket
+    from pyworkers.remote import send_msg, recv_msg
+    s = socket.socket(socket.AF_INET, socket.SOCK_STREAM)
+    s.settimeout(HANG)
+    try:
+        s.connect(addr)
+        send_msg(s, (cid, False), comment='context: del header')
+        send_msg(s, None, comment='context: del request')
+        return recv_msg(s, comment='context: del result')
+    finally:
+        s.close()
+
+
+def scenario_c18(scn):
+    """scn: {id, hist: [{op,id,tok,w,x,k}], upayload: hex of a recorded worker-in-context payload frame, upos, logdir}
+    Plays the history with real RemoteContext / PersistentRemoteWorker(context=i) calls (a raw-socket
+    client where the model says the context is unknown: the real constructor would hang - C20)."""
+    import select
+    import socket
+    from pyworkers.remote import send_msg
+    from pyworkers.persistent_remote import PersistentRemoteWorker
+    from pyworkers.remote_context import RemoteContext
+    L.setup_env()
+    srv = Srv(scn.get('logdir'))
+    reps, lives = [], []
+    ctxobj, workers, raws = {}, {}, {}
+    notes = {'helpers': -1, 'server_error': ''}
+    obs = {'rep': reps, 'live': lives, 'srv_alive': 'F', 'fresh': []}
+    try:
+        for n, q in enumerate(scn['hist']):
+            op, cid = q['op'], q['id']
+            live = []
+            if op == 'create':
+                r = L.bounded(lambda: RemoteContext(cid, host=srv.addr, target=tg.ctx_fun, kwargs={'tok': q['tok']}), HANG)
+                if r[0] == 'ok':
+                    ctxobj[cid] = r[1]
+                    reps.append('ok')
+                else:
+                    reps.append('ValueError' if r[0] == 'raised' and isinstance(r[1], ValueError) else L.tag(r))
+            elif op == 'delete':
+                o = ctxobj.get(cid)
+                if o is not None and o.is_alive():
+                    r = L.bounded(o.wait, 3 * HANG)
+                else:
+                    r = L.bounded(_raw_delete, 3 * HANG, srv.addr, cid)
+                reps.append(L.tag(r))
+                # which workers are still alive shortly after the reply (API and OS), without touching them
+                t0 = time.time()
+                pend = dict(workers)
+                while pend and time.time() - t0 < 2.0:
+                    for w, wo in list(pend.items()):
+                        a = L.bounded(wo.is_alive, HANG)
+                        if a == ('ok', False) and not L.pid_alive(wo.pid):
+                            del pend[w]
+                    if pend:
+                        time.sleep(0.05)
+                live = sorted(pend)
+            elif op == 'start':
+                if q['k'] == 'T':
+                    r = L.bounded(lambda: PersistentRemoteWorker(None, host=srv.addr, context=cid, main_path=L.TARGETS_PATH), HANG)
+                    if r[0] == 'ok':
+                        workers[q['w']] = r[1]
+                        reps.append('started')
+                    else:
+                        reps.append(L.tag(r))
+                else:
+                    cap = _Capture()
+                    send_msg(cap, (cid, True))
+                    pay = L.retarget([b'', bytes.fromhex(scn['upayload'])], [tuple(p) for p in scn['upos']], srv.addr[1])[1]
+                    s = socket.socket(socket.AF_INET, socket.SOCK_STREAM)
+                    s.settimeout(HANG)
+                    try:
+                        s.connect(srv.addr)
+                        s.sendall(cap.data + pay)
+                        raws[n] = s
+                        reps.append('pending')
+                    except OSError as e:
+                        reps.append('raised:' + type(e).__name__)
+            elif op == 'call':
+                wo = workers.get(q['w'])
+
+                def call():
+                    from pyworkers.persistent import WorkerClosedError
+                    try:
+                        wo.enqueue(q['x'])
+                        return 'v:%s' % (wo.next_result(timeout=HANG),)
+                    except (WorkerClosedError, queue.Empty):
+                        return 'dead'
+                r = L.bounded(call, 2 * HANG)
+                reps.append(r[1] if r[0] == 'ok' else L.tag(r))
+            elif op == 'wait':
+                wo = workers.get(q['w'])
+                reps.append(L.tag(L.bounded(wo.wait, 2 * HANG, HANG)))
+            else:
+                raise MachineryError('unknown request in history: %r' % (q,))
+            lives.append(live)
+            srv.note_descendants()
+        # end of history: the server must still serve; then settle the raw worker requests
+        fr = fresh_round_trip(srv, 500)
+        obs['fresh'].append(fr)
+        if fr['got'] != fr['want']:         # a server whose run() has raised is busy in its `finally` for a while
+            t0 = time.time()
+            while srv.alive() and time.time() - t0 < HANG:
+                time.sleep(0.05)
+        for n, s in raws.items():
+            got = b''
+            try:
+                rd, _, _ = select.select([s], [], [], 0.3)
+                if rd:
+                    got = s.recv(4096)
+            except OSError:
+                pass
+            reps[n] = 'started' if got else 'nostart'
+        time.sleep(0.05)
+        obs['srv_alive'] = 'T' if srv.alive() else 'F'
+        if srv.alive():
+            notes['helpers'] = len(L.spawned_children(srv.pid))
+        notes['server_error'] = srv.last_error()
+    finally:
+        for s in raws.values():
+            try:
+                s.close()
+            except OSError:
+                pass
+        notes['unkillable'] = srv.destroy()
+    return {'id': scn['id'], 'prop': 'C18', 'scn': {'hist': scn['hist']}, 'obs': obs, 'notes': notes}
+
+
+# ----------------------------------------------------------------------------- C12
+
+C12_CTX = 1
+
+
+def _error_kind(w):
+    from pyworkers.worker import WorkerTerminatedError
+    e = w.error
+    if e is None:
+        return 'None'
+    if type(e) is WorkerTerminatedError:
+        return 'WTE'
+    return 'other:' + type(e).__name__
+
+
+def scenario_c12(scn):
+    """scn: {id, how: 'terminate'|'sigterm', kids: [{state, persistent}], racer: None|{step, delay}, streams, pos, logdir}
+    kid states: coop / swallow (target running), idle (persistent, no input), finished, inctx (idle in a
+    context), inctx-coop / inctx-swallow (running the context's target), starting (scripted client in the
+    middle of the handshake when the stop arrives; no parent-side object)."""
+    import uuid
+    from pyworkers.remote import RemoteWorker
+    from pyworkers.persistent_remote import PersistentRemoteWorker
+    from pyworkers.remote_context import RemoteContext
+    L.setup_env()
+    tagv = 'vf12-' + uuid.uuid4().hex
+    os.environ['VF_SCN'] = tagv
+    try:
+        srv = Srv(scn.get('logdir'))
+    finally:
+        os.environ.pop('VF_SCN', None)
+    kids = scn['kids']
+    objs = [None] * len(kids)
+    markers = []
+    notes = {'setup': [], 'stop': '', 'left_pids': [], 'server_error': ''}
+    obs = {'srv_dead': 'F', 'left': -1, 'kids': []}
+    raw = None
+    try:
+        need_ctx = sorted(set(k['state'] for k in kids if k['state'].startswith('inctx')))
+        ctxs = {}
+
+        def mk(i, k):
+            st = k['state']
+            marker = os.path.join(scn['logdir'], 'mark-%s-%d' % (tagv, i))
+            kw = dict(host=srv.addr, main_path=L.TARGETS_PATH)
+            if st in ('coop', 'swallow'):
+                fn = tg.coop_marked if st == 'coop' else tg.swallow_marked
+                if k['persistent']:
+                    w = PersistentRemoteWorker(fn, **kw)
+                    w.enqueue(marker)
+                else:
+                    w = RemoteWorker(fn, args=(marker,), **kw)
+                markers.append(marker)
+            elif st == 'idle':
+                w = PersistentRemoteWorker(tg.ident, **kw)
+            elif st == 'finished':
+                if k['persistent']:
+                    w = PersistentRemoteWorker(tg.ident, **kw)
+                    w.enqueue(3)
+                    w.next_result(timeout=HANG)
+                else:
+                    w = RemoteWorker(tg.ident, args=(3,), **kw)
+                if not w.wait(HANG):
+                    raise MachineryError('C12 set-up: a finished worker did not finish')
+            elif st.startswith('inctx'):
+                w = PersistentRemoteWorker(None, context=ctxs[st].context_id, **kw)
+                if st != 'inctx':
+                    w.enqueue(marker)
+                    markers.append(marker)
+            else:
+                raise MachineryError('unknown kid state ' + st)
+            return w
+
+        def setup():
+            for j, st in enumerate(need_ctx):
+                fn = {'inctx': tg.ident, 'inctx-coop': tg.coop_marked, 'inctx-swallow': tg.swallow_marked}[st]
+                ctxs[st] = RemoteContext(C12_CTX + j, host=srv.addr, target=fn)
+            for i, k in enumerate(kids):
+                if k['state'] == 'orphan':          # a refused duplicate registration leaves its helper process behind
+                    cid = 50 + i
+                    RemoteContext(cid, host=srv.addr, target=tg.ident)
+                    try:
+                        RemoteContext(cid, host=srv.addr, target=tg.ident)
+                        raise MachineryError('C12 set-up: duplicate registration was not refused')
+                    except ValueError:
+                        pass
+                elif k['state'] != 'starting':
+                    objs[i] = mk(i, k)
+            t0 = time.time()
+            while not all(os.path.exists(m) for m in markers):
+                if time.time() - t0 > 2 * HANG:
+                    raise MachineryError('C12 set-up: a target did not start running')
+                time.sleep(0.02)
+            return True
+        r = L.bounded(setup, 40)
+        if r[0] != 'ok':
+            raise MachineryError('C12 set-up failed: %r' % (r,))
+        pids = [getattr(o, 'pid', None) if o is not None else None for o in objs]
+        before = [p for p in L.tagged_pids(tagv) if p != srv.pid]
+
+        # a worker in the middle of its start-up: scripted client (no parent-side object)
+        racer = scn.get('racer')
+        rt = None
+        if racer and racer != 'none':
+            import threading
+            frames = L.retarget([bytes.fromhex(x) for x in scn['streams']['worker']], [tuple(p) for p in scn['pos']['worker']], srv.addr[1])
+            raw = L.RawClient(srv.addr, frames, timeout=HANG)
+            step = 'addr' if racer == 'addr' else 'run'
+            rt = threading.Thread(target=lambda: raw.run(step, 0, 'fin', hold=True), daemon=True)
+            rt.start()
+            if racer == 'addr':
+                rt.join(HANG)                      # the server is now blocked in the accept() of the control socket
+                time.sleep(0.1)
+            elif racer == 'spawned':               # control channel connected: the server is spawning the backend
+                t0 = time.time()
+                while 'ctrl' not in raw.log and time.time() - t0 < HANG:
+                    time.sleep(0.002)
+                time.sleep(0.03)
+            else:                                  # 'appended': runtime info received, the worker is in `children`
+                rt.join(HANG)
+                time.sleep(0.2)
+            notes['racer_log'] = list(raw.log)
+
+        # the stop
+        t0 = time.time()
+        if scn['how'] == 'terminate':
+            r = L.bounded(lambda: srv.proc.terminate(timeout=5, force=True), 30)
+            notes['stop'] = L.tag(r)
+        else:
+            os.kill(srv.pid, signal.SIGTERM)
+            notes['stop'] = 'signalled'
+        gone = not L.await_dead([srv.pid], 8.0)
+        notes['stop_s'] = round(time.time() - t0, 2)
+        obs['srv_dead'] = 'T' if gone else 'F'
+        # "shortly afterwards": every process that descends from the server (found by an environment tag, so
+        # re-parented orphans are seen too; multiprocessing's resource trackers are not workers) is gone 3 s later
+        def workers_of(tagged):
+            return [p for p in tagged if p != srv.pid and not L.is_resource_tracker(p)]
+        t1 = time.time()
+        left = workers_of(L.tagged_pids(tagv))
+        while left and time.time() - t1 < 3.0:
+            time.sleep(0.1)
+            left = workers_of(L.tagged_pids(tagv))
+        obs['left'] = len(left)
+        notes['left_pids'] = [(p, L.cmd_of(p)[-60:]) for p in left]
+        notes['before'] = len(before)
+        if rt is not None:
+            rt.join(HANG)
+        # every parent finds out, without blocking
+        for i, k in enumerate(kids):
+            o = objs[i]
+            if o is None:
+                obs['kids'].append({'os_dead': 'T', 'wait': '-', 'alive': '-', 'has_error': '-', 'error': '-', 'blocked': 'F'})
+                continue
+            rw = L.bounded(o.wait, 3 + HANG, 3)
+            ra = L.bounded(o.is_alive, HANG)
+            rh = L.bounded(lambda: o.has_error, HANG)
+            re_ = L.bounded(lambda: _error_kind(o), HANG)
+            blocked = any(x[0] == 'hang' for x in (rw, ra, rh, re_))
+            obs['kids'].append({'os_dead': 'F' if (pids[i] and L.pid_alive(pids[i])) else 'T',
+                                'wait': L.tag(rw), 'alive': L.tag(ra), 'has_error': L.tag(rh),
+                                'error': re_[1] if re_[0] == 'ok' else L.tag(re_), 'blocked': 'T' if blocked else 'F'})
+        notes['server_error'] = srv.last_error()
+    finally:
+        if raw is not None:
+            raw.vanish('rst')
+        L.kill_pids([p for p in L.tagged_pids(tagv)])
+        notes['unkillable'] = srv.destroy()
+    return {'id': scn['id'], 'prop': 'C12',
+            'scn': {'how': scn['how'], 'racer': scn.get('racer') or 'none',
+                    'kids': [{'state': k['state'], 'persistent': 'T' if k['persistent'] else 'F',
+                              'parent': 'F' if k['state'] in ('starting', 'orphan') else 'T'} for k in kids]},
+            'obs': obs, 'notes': notes}
